@@ -1304,6 +1304,12 @@ func main() {
 			cases = append(cases, hc.w.callbackCase(f, cbCase{Slug: slug, Method: "GET", Code: "c1", StateKind: "genuine", CookieK: "genuine", RedirOK: true, Email: hc.email, RedeemSt: 200}))
 		}
 	}
+	// sub-second boundary: lifetime / refresh deadline = the start of the current second
+	for _, slug := range slugs {
+		for _, lr := range [][2]int64{{0, 3600}, {0, 0}, {3600, 0}, {-1, 3600}, {3, 0}, {3600, 3}} {
+			cases = append(cases, w0.subsecondCase(f, r, lr[0], lr[1], slug))
+		}
+	}
 	for mode := 0; mode < 5; mode++ {
 		for k := 0; k < 4; k++ {
 			cases = append(cases, worlds[k%3].batchCase(f, r, mode))
@@ -1317,6 +1323,7 @@ func main() {
 	nHist := a.N / 25
 	nBrowser := a.N / 16
 	nBatch := a.N / 16
+	nSub := a.N / 25
 	nCb := a.N / 5
 	nStart := a.N / 20
 	maxLen := 12
@@ -1326,6 +1333,9 @@ func main() {
 	var gen []c.Case
 	for i := 0; i < nHist; i++ {
 		gen = append(gen, pickW().histCase(f, r, maxLen))
+	}
+	for i := 0; i < nSub; i++ {
+		gen = append(gen, pickW().subsecondCase(f, r, subOffsets[r.Intn(len(subOffsets))], subOffsets[r.Intn(len(subOffsets))], r.Pick(slugs)))
 	}
 	for i := 0; i < nBatch; i++ {
 		gen = append(gen, pickW().batchCase(f, r, -1))
@@ -1339,7 +1349,7 @@ func main() {
 	for i := 0; i < nStart; i++ {
 		gen = append(gen, pickW().startCase(r))
 	}
-	for i := 0; i < a.N-nHist-nBrowser-nBatch-nCb-nStart; i++ {
+	for i := 0; i < a.N-nHist-nBrowser-nBatch-nSub-nCb-nStart; i++ {
 		gen = append(gen, pickW().signInCase(f, genSiCase(r)))
 	}
 	// spread the expensive kinds (histories, callbacks) evenly over the Coq shards
